@@ -294,6 +294,9 @@ struct EditCase {
   src: String,
   rule: Value, // full rule file as JSON (= YAML)
   expanded: bool,
+  /// how the fix widens the edit: (expandStart, expandEnd); 0 = not, 1 = a comma next to the node, 2 = expandStart: the
+  /// nearest comma before it (stopBy: end), expandEnd: the nearest `]` after it (stopBy: end); None = not one of these
+  exp: Option<(u8, u8)>,
 }
 
 fn edit_record(c: &EditCase, scratch: &str, idx: usize) -> Option<Value> {
@@ -359,7 +362,9 @@ fn edit_record(c: &EditCase, scratch: &str, idx: usize) -> Option<Value> {
   Some(json!({
     "mode": "edit", "id": c.id, "lang": util::lang_name(c.lang), "rule": c.rule, "expanded": c.expanded,
     "src": bytes(c.src.as_bytes()), "cw": char_widths(&c.src),
-    "T": p.nodes.iter().map(|n| json!({"s": n.s, "e": n.e, "p": n.p, "ch": n.ch})).collect::<Vec<_>>(),
+    "T": p.nodes.iter().map(|n| json!({"s": n.s, "e": n.e, "p": n.p, "ch": n.ch,
+      "tx": match c.src.get(n.s..n.e) { Some(",") => 1, Some("]") => 2, _ => 0 }})).collect::<Vec<_>>(),
+    "exp": match c.exp { Some((a, b)) => json!([a, b]), None => json!([9, 9]) },
     "lib": lib_edits, "lib_by_ref": lib_by_ref, "cli": cli_json, "after": bytes(&after), "after_utf8": std::str::from_utf8(&after).is_ok(),
     "applied": applied, "codes": [js.code, up.code],
     "text": c.src.chars().take(200).collect::<String>(),
@@ -406,7 +411,7 @@ fn edit_cases(vectors: Option<&str>, corpus: &str, rng: &mut Rng, thorough: bool
       let rule = json!({"id": "r", "language": "JavaScript",
         "rule": {"kind": "identifier", "regex": "^m", "inside": {"kind": "array"}},
         "fix": if expanded { fix } else { json!("XY"[..ins].to_string()) }});
-      out.push(EditCase { id: format!("c06v{i}"), lang: js, ext: "js", src, rule, expanded });
+      out.push(EditCase { id: format!("c06v{i}"), lang: js, ext: "js", src, rule, expanded, exp: Some((el as u8, er as u8)) });
     }
   }
   // hand-picked shapes: nested matches, trailing punctuation trimmed by the match length, multi-byte text
@@ -422,7 +427,18 @@ fn edit_cases(vectors: Option<&str>, corpus: &str, rng: &mut Rng, thorough: bool
   for (i, (src, rule)) in fixed.iter().enumerate() {
     for (j, fix) in ["bar($A)", "$A", ""].iter().enumerate() {
       let r = json!({"id": "r", "language": "JavaScript", "rule": rule, "fix": fix});
-      out.push(EditCase { id: format!("fixed{i}_{j}"), lang: js, ext: "js", src: src.to_string(), rule: r, expanded: false });
+      out.push(EditCase { id: format!("fixed{i}_{j}"), lang: js, ext: "js", src: src.to_string(), rule: r, expanded: false, exp: None });
+    }
+  }
+  // expansions that search beyond the neighbour (stopBy: end): several siblings before / after the match satisfy the
+  // expansion rule; the edit starts at the NEAREST one before it, ends at the nearest one after it
+  for (i, src) in ["x = [a, b, m1, c, m2, d];\n", "[m0, é, mm, z];\n", "f([a, /* c */ b, m3], [m4]);\n"].iter().enumerate() {
+    for (j, (el, er)) in [(2u8, 0u8), (2, 2), (2, 1), (0, 2), (1, 2)].iter().enumerate() {
+      let mut fix = json!({"template": "Q"});
+      match el { 1 => { fix["expandStart"] = json!({"regex": "^,$", "stopBy": "neighbor"}); } 2 => { fix["expandStart"] = json!({"regex": "^,$", "stopBy": "end"}); } _ => {} }
+      match er { 1 => { fix["expandEnd"] = json!({"regex": "^,$", "stopBy": "neighbor"}); } 2 => { fix["expandEnd"] = json!({"regex": "^\\]$", "stopBy": "end"}); } _ => {} }
+      let rule = json!({"id": "r", "language": "JavaScript", "rule": {"kind": "identifier", "regex": "^m", "inside": {"kind": "array"}}, "fix": fix});
+      out.push(EditCase { id: format!("far{i}_{j}"), lang: js, ext: "js", src: src.to_string(), rule, expanded: true, exp: Some((*el, *er)) });
     }
   }
   // corpus: cut a pattern with one hole at a corpus site, fix wraps the hole
@@ -451,7 +467,7 @@ fn edit_cases(vectors: Option<&str>, corpus: &str, rng: &mut Rng, thorough: bool
       let pattern = format!("{}$V{}", &st[..s], &st[e..]);
       let rule = json!({"id": "r", "language": util::lang_name(l), "rule": {"pattern": pattern}, "fix": "$V"});
       let src = if k % 2 == 1 { format!("\n \n{text}") } else { text.clone() };
-      out.push(EditCase { id: format!("{path}#edit{k}"), lang: l, ext: ext_of(&path), src, rule, expanded: false });
+      out.push(EditCase { id: format!("{path}#edit{k}"), lang: l, ext: ext_of(&path), src, rule, expanded: false, exp: None });
     }
   }
   out
